@@ -448,7 +448,7 @@ def check_claims(prop, tier):
     }
     verif.write_evidence(prop, tier, coverage,
                          ["'does not start with an ISO 8601 date' is instantiated as: first four characters are not all ASCII digits and the string does not start with + or -"],
-                         time.time() - t0, s["nviol"])
+                         time.time() - t0, s["nviol"], level="exploration")
     return 1 if fresh > 0 else 0
 
 
@@ -485,7 +485,7 @@ def check_typing(prop, tier):
     verif.write_evidence(prop, tier, coverage,
                          ["one-step model: the decision table is the specification; there is no history to explore",
                           "rustc accept/reject of a function body is the observation; programs are functions whose parameters carry the types"],
-                         time.time() - t0, len(r["violations"]))
+                         time.time() - t0, len(r["violations"]), level="exploration")
     return 1 if fresh > 0 else 0
 
 
